@@ -80,7 +80,17 @@ TEMPLATES = [
     (["N", "C", "H", "H"], [(0, 0, 0), (12, 0, 0), (16, 7, 0), (16, -7, 0)], [(0, 1), (1, 2), (1, 3)]),
     (["O", "C", "N", "H"], [(0, 0, 0), (9, 3, 0), (14, -5, 4), (4, 10, 6)], [(0, 1), (1, 2), (0, 3)]),
     (["C", "C", "O"], [(0, 0, 0), (11, 2, 0), (3, 9, 5)], [(0, 1), (0, 2)]),
+    # one-letter symbols that are prefixes of other UFF keys (S/Si, B/Be/Br, I/In) inside the pattern itself
+    (["S", "C", "H"], [(0, 0, 0), (14, 0, 0), (17, 8, 3)], [(0, 1), (1, 2)]),
+    (["B", "O", "I", "H"], [(0, 0, 0), (11, 0, 0), (-6, 15, 0), (15, 6, 5)], [(0, 1), (0, 2), (1, 3)]),
+    (["P", "S", "N"], [(0, 0, 0), (15, 3, 0), (-5, 11, 6)], [(0, 1), (0, 2)]),
 ]
+
+# filler atoms: every generated world contains at least one of S / B / I (whose bare symbol is a prefix of another
+# element's UFF keys: Si…, Be…/Br, In…) next to their two-letter neighbours and other common elements
+PREFIX_ELEMENTS = ["S", "B", "I"]
+FILLER_ELEMENTS = ["S", "B", "I", "N", "C", "O", "H", "F", "P", "Si", "Be", "In", "Br", "Na", "Cl", "Zr", "Cu", "K", "Y",
+                   "Sn", "Se", "Sc", "Ba", "Bi", "Ir", "Ni", "Nb", "Co", "Cr", "Ca", "Fe", "Pt", "Pd", "Hf", "Hg", "Os"]
 
 
 def cube_rotations():
@@ -143,6 +153,14 @@ def gen_world(rng, cell_kind="ortho", in_fmt="lmpdat", pat_fmt="cml", out_fmt="l
         f = [Fraction(v, 4) for v in s]
         centre = [sum(f[r] * Fraction(cell[r][c]) for r in range(3)) for c in range(3)]
         atoms.append((rng.choice(["Zr", "Cu"]), centre))
+    # single filler atoms on the half-lattice points (well away from the pattern sites): element variety for --pp
+    half = [(i, j, k) for i in (0, 2) for j in (0, 2) for k in (0, 2)]
+    rng.shuffle(half)
+    fillers = [rng.choice(PREFIX_ELEMENTS)] + [rng.choice(FILLER_ELEMENTS) for _ in range(rng.randint(2, 5))]
+    for s, e in zip(half, fillers):
+        f = [Fraction(v, 4) for v in s]
+        centre = [sum(f[r] * Fraction(cell[r][c]) for r in range(3)) + Fraction(1, 8) for c in range(3)]
+        atoms.append((e, centre))
     # wrap into the cell (orthorhombic: per component; triclinic: leave unwrapped — loaders wrap what they wrap)
     if cell_kind == "ortho":
         atoms = [(e, [x[c] % Fraction(cell[c][c]) for c in range(3)]) for e, x in atoms]
@@ -438,7 +456,7 @@ class Recorder:
                 r.__class__ = RecAtoms
             return r
 
-        def wrap(name, fn, describe):
+        def wrap(name, fn, describe, after=None):
             def w(*a, **k):
                 top = rec.active and rec.depth == 0
                 ev = None
@@ -463,6 +481,11 @@ class Recorder:
                         track(r)
                         ev["ret"] = rec.tok(r)
                         ev["ret_obj"] = r
+                    if after is not None:
+                        try:
+                            after(ev, a, k)
+                        except Exception as e:
+                            ev["after_error"] = repr(e)
                 return r
             return w
 
@@ -487,6 +510,15 @@ class Recorder:
 
         def d_on(ev, a, k):
             ev["on"] = rec.tok(a[0])
+
+        def d_pair(ev, a, k):
+            ev["on"] = rec.tok(a[0])
+            ev["elements_before"] = [str(x) for x in a[0].atom_type_elements]
+
+        def a_pair(ev, a, k):
+            ev["elements"] = [str(x) for x in a[0].atom_type_elements]
+            ev["labels"] = [str(x) for x in a[0].atom_type_labels]
+            ev["pair_coeffs"] = [str(x) for x in a[0].pair_coeffs]
 
         def d_from_ase(ev, a, k):
             ev["src"] = rec.tok(a[1])
@@ -539,7 +571,7 @@ class Recorder:
             A.to_ase = wrap("to_ase", saved_cls["to_ase"], d_on)
             M.find_pattern_in_structure = wrap("find", find0, d_find)
             M.replace_pattern_in_structure = wrap("replace", repl0, d_replace)
-            M.assign_pair_params_to_structure = wrap("assign_pair", saved_mod["assign_pair_params_to_structure"], d_on)
+            M.assign_pair_params_to_structure = wrap("assign_pair", saved_mod["assign_pair_params_to_structure"], d_pair, a_pair)
             M.print = rec_print
             ase.io.read = w_read
             ase.Atoms.write = wrap("ase_write", saved_write, d_write)
@@ -816,6 +848,49 @@ def oracle_trace(o, calls, events, failed_early):
     return None
 
 
+_UFF = {}
+
+
+def uff_expect(el):
+    """(key, epsilon, sigma) the documentation of --pp promises for element `el`, from the UFF4MOF table as the
+    translator reads it from the source text (harness.gen_tables), NOT through mofun: the first table key that starts
+    with the symbol padded with '_' to two characters; epsilon = D1, sigma = x1 * 2^(-1/6)."""
+    from .. import gen_tables
+    if not _UFF:
+        _UFF["t"] = [(k, [Fraction(m, 10 ** e) if e >= 0 else Fraction(m * 10 ** (-e)) for (m, e) in v])
+                     for k, v in gen_tables.read_tables()["uff"]]
+    pref = el.ljust(2, "_")
+    for k, v in _UFF["t"]:
+        if k.startswith(pref):
+            return k, float(v[3]), float(v[2]) * 2 ** (-1.0 / 6.0)
+    return None
+
+
+def oracle_pp(elements, labels, pairs, where):
+    """every atom type that existed when --pp was applied carries the UFF pair potential and the UFF type label of
+    its OWN element.  `pairs` are LAMMPS pair-coefficient strings "eps sigma # key".  Returns None or text."""
+    if len(labels) < len(elements) or len(pairs) < len(elements):
+        return "%s: %d atom types but %d labels / %d pair coefficients after --pp" % (where, len(elements), len(labels), len(pairs))
+    bad = []
+    for i, el in enumerate(elements):
+        want = uff_expect(el)
+        if want is None:
+            continue
+        key, eps, sig = want
+        tok = pairs[i].split("#")[0].split()
+        try:
+            geps, gsig = float(tok[0]), float(tok[1])
+        except Exception:
+            bad.append("type %d (%s): unreadable pair coefficient %r" % (i + 1, el, pairs[i]))
+            continue
+        if labels[i] != key or abs(geps - eps) > 2e-6 or abs(gsig - sig) > 2e-6:
+            bad.append("type %d (%s): got label %s eps=%.6f sigma=%.6f, UFF4MOF entry of %s is %s eps=%.6f sigma=%.6f"
+                       % (i + 1, el, labels[i], geps, gsig, el, key, eps, sig))
+    if bad:
+        return "%s: --pp assigns pair potentials that are not those of the type's own element: %s" % (where, "; ".join(bad[:4]))
+    return None
+
+
 def assign_pair_api(structure):
     """the UFF pair-parameter assignment, through the library's own tables (not the CLI module's helper)"""
     from mofun.rough_uff import pair_coeffs
@@ -1031,6 +1106,31 @@ def run_case(world, o, seed):
                                           "api_atoms": None if b is None else len(b.get("atoms", b.get("symbols", [])))},
                                          "identical structures (1e-6)", []))
                     info["natoms_out"] = None if a is None else len(a.get("atoms", a.get("symbols", [])))
+                    # --pp, independent expectation on the WRITTEN file (LAMMPS data files carry labels and Pair Coeffs)
+                    pev = [e for e in events if e["k"] == "assign_pair" and "elements" in e]
+                    if o["pp"] and pev and a is not None and suffix(out_cli) == ".lmpdat" and "types" in a:
+                        k = len(pev[0]["elements"])
+                        bad = None
+                        if a["types"]["elem"][:k] != pev[0]["elements"]:
+                            bad = "output file: the first %d atom types %s are not the types of the structure %s" % (
+                                k, a["types"]["elem"][:k], pev[0]["elements"])
+                        else:
+                            bad = oracle_pp(pev[0]["elements"], a["types"]["label"][:k], a["types"]["pair"][:k], "output file")
+                        if bad:
+                            failures.append((bad, {"argv": [unsub(x, T) for x in argv(o, T)], "labels": a["types"]["label"],
+                                                   "pair": a["types"]["pair"]},
+                                             "UFF4MOF pair coefficients (D1, x1*2^(-1/6)) and type key of each type's own element", []))
+                        info["pp_types"] = k
+                # --pp, independent expectation on the structure right after the assignment (every output format)
+                for e in events:
+                    if e["k"] == "assign_pair" and "elements" in e:
+                        bad = oracle_pp(e["elements"], e["labels"], e["pair_coeffs"], "after assign_pair_params_to_structure")
+                        if bad is None and e["elements"] != e["elements_before"]:
+                            bad = "the pair-parameter assignment changed the element list of the atom types"
+                        if bad:
+                            failures.append((bad, {"argv": [unsub(x, T) for x in argv(o, T)], "labels": e["labels"],
+                                                   "pair": e["pair_coeffs"]},
+                                             "UFF4MOF pair coefficients (D1, x1*2^(-1/6)) and type key of each type's own element", []))
                 if o["find"] and not o["replace"]:
                     cnt, got = parse_matches(res.stdout if hasattr(res, "stdout") else res.output)
                     want = sorted(tuple(sorted(int(v) for v in t)) for t in (api_matches or []))
